@@ -60,7 +60,8 @@ fn worker(args: &[String]) -> i32 {
         "cache" => engines::worker_cache(&wa),
         "dense" => engines::worker_dense(&wa),
         "corpus" => engines::worker_corpus(&wa, &root().join("corpus/cache")),
-        "panic" => engines::worker_panic(&wa),
+        "panic" => engines::worker_panic(&wa, false),
+        "panic-drop" => engines::worker_panic(&wa, true),
         "walks" => engines::worker_walks(&wa, Fate::Drop, 6, 3),
         "walks-forget" => engines::worker_walks(&wa, Fate::Forget, 6, 1),
         "walks-pos" => engines::worker_walks(&wa, Fate::Drop, if wa.thorough { 6 } else { 5 }, usize::MAX),
@@ -72,6 +73,7 @@ fn worker(args: &[String]) -> i32 {
         "mem" => engines::worker_mem(&wa),
         "mem-big" => engines::worker_mem_big(&wa),
         "huge" => engines::worker_huge(&wa),
+        "stdvals" => engines::worker_stdvals(&wa),
         other => { eprintln!("worker: unknown engine {}", other); return 2; }
     };
     let text = serde_json::to_string(&acc.to_json()).unwrap();
@@ -127,6 +129,9 @@ fn exec_case(args: &[String]) -> i32 {
             None => 2,
         };
     }
+    if let Some(line) = text.lines().find(|l| l.starts_with("stdvals ")) {
+        return match engines::run_stdvals_line(line) { Ok(_) => 0, Err(_) => 2 };
+    }
     match Case::from_text(&text) {
         Ok(case) => { let _ = run_case(&case, prop, false); 0 },
         Err(_) => 2,
@@ -175,7 +180,7 @@ fn replay(args: &[String]) -> i32 {
         let id = get("id=").unwrap_or_default();
         let seed: u64 = get("seed=").and_then(|s| s.parse().ok()).unwrap_or(0);
         let nestings: usize = get("nestings=").and_then(|s| s.parse().ok()).unwrap_or(4);
-        return match lruverif::probes::run_all(&root(), Path::new("/repo"), seed, nestings) {
+        return match lruverif::probes::run_all(&root(), &lruverif::probes::repo_path(), seed, nestings) {
             Err(e) => { eprintln!("replay: inconclusive: {}", e); 2 },
             Ok(run) => match run.results.iter().find(|r| r.probe.id == id) {
                 None => { eprintln!("replay: no probe {}", id); 2 },
@@ -186,6 +191,23 @@ fn replay(args: &[String]) -> i32 {
                     1
                 },
             },
+        };
+    }
+    if let Some(line) = text.lines().find(|l| l.starts_with("stdvals ")) {
+        return match engines::run_stdvals_line(line) {
+            Ok((d, fails)) => {
+                println!("  {}", d);
+                let known = load_known(&root());
+                let mut code = 0;
+                for f in &fails {
+                    println!("FAILURE tags={} sig={} : {}", f.tags.join("+"), f.sig, f.msg);
+                    if f.tags.contains(&prop) && is_known(&known, prop, &f.sig).is_none() { code = 1; }
+                }
+                if code == 1 { println!("VIOLATION property={} replay={}", prop, path); }
+                else { println!("replay: property {} held on this case", prop); }
+                code
+            },
+            Err(e) => { eprintln!("replay: {}", e); 2 },
         };
     }
     if text.lines().any(|l| l.starts_with("huge ")) {
@@ -274,9 +296,20 @@ fn jobs_for(prop: &str, thorough: bool) -> Vec<Job> {
             jobs.push(Job { engine: "geometry", build: "", asan: true, workers: 16, cases: 0, timeout_s: 1800 });
         }
     }
-    if matches!(prop, "C02" | "C04" | "C05" | "C06" | "C07" | "C12" | "C13" | "C14" | "C15") {
+    if matches!(prop, "C02" | "C03" | "C04" | "C06" | "C07" | "C10" | "C11" | "C12" | "C13" | "C14" | "C15" | "C17") {
+        // every crash point inside a destructor the victim operation runs
+        jobs.push(Job { engine: "panic-drop", build: "", asan: false, workers: 16, cases: if thorough { 600 } else { 60 }, timeout_s: if thorough { 5400 } else { 900 } });
+        if matches!(prop, "C06" | "C07" | "C12") {
+            jobs.push(Job { engine: "panic-drop", build: "", asan: true, workers: 16, cases: if thorough { 200 } else { 15 }, timeout_s: if thorough { 5400 } else { 900 } });
+        }
+    }
+    if matches!(prop, "C02" | "C04" | "C05" | "C06" | "C07" | "C12" | "C13" | "C14" | "C15" | "C19" | "C20") {
         // more than 2^16 entries: one script per worker in the quick tier
         jobs.push(Job { engine: "huge", build: "", asan: false, workers: 16, cases: if thorough { 12 } else { 1 }, timeout_s: 3600 });
+    }
+    if matches!(prop, "C01" | "C02" | "C10" | "C11") {
+        // std value types measured by the crate's own estimates
+        jobs.push(Job { engine: "stdvals", build: "", asan: false, workers: 16, cases: if thorough { 20000 } else { 1500 }, timeout_s: 1800 });
     }
     if cache_family {
         jobs.insert(0, Job { engine: "corpus", build: "", asan: false, workers: 1, cases: 0, timeout_s: 600 });
@@ -763,7 +796,8 @@ fn orchestrate(args: &[String]) -> i32 {
             "nontrivial_signatures_sample": total.nt.iter().take(40).collect::<Vec<_>>(),
         },
         "assumptions": [
-            "sizes reported by MemSize implementations are at most 2^40 so that sums do not overflow usize",
+            "size estimates are at most 2^40 per entry, or of the limit's own magnitude when max_size exceeds 2^61; every sum of estimates the cache has to represent fits a usize",
+            "destructor panics and re-entrant user code are injected only inside cache operations; after a destructor panic leaks are tolerated, as C16 tolerates them for the callbacks it lists",
             "reserve is only called with arguments for which its documentation does not promise a panic",
             "the reference model (harness/src/model.rs) and the tagged oracles (harness/src/steps.rs, exec.rs, exec2.rs) state the property correctly",
             "hooks (feature verif-hooks) are read-only and report the true link structure",
